@@ -122,12 +122,15 @@ func (s *Streamer) parseEvents(ctx context.Context, events <-chan replication.Bi
 
 	commit := func(ev replication.BinlogEvent) error {
 		now := pos
-		pos.Offset = ev.NextPosition()
 		next := pos
+		next.Offset = ev.NextPosition()
 		tran := newTransaction(now, next, int64(ev.Timestamp()), tranEvents)
 		if err = s.sendTransaction(tran); err != nil {
 			return fmt.Errorf("sendTransaction error: %v", err)
 		}
+		// Advance only once the handler has accepted the transaction, so that
+		// a failed delivery is retried by the next attempt.
+		pos = next
 		tranEvents = nil
 		autocommit = true
 		return nil
